@@ -384,6 +384,77 @@ def r03_9(run, model):
     run.floor("TVar arms that read the union-find", n, 3)
 
 
+def r03_10(run, model):
+    run.rule("R03.10", "declared trait bounds are part of a generic function's signature at its call sites: the type scheme a call site "
+                       "instantiates carries the bounds (FnScheme has a field for them that is not the unit type), so an instantiation can "
+                       "be checked against them")
+    ENV = "crates/compiler/src/env.rs"
+    st = model.struct("FnScheme")
+    ENV = st["file"]
+    fields = {f["name"]: S.norm_ws(f["ty"]) for f in st["fields"]}
+    carriers = {n: t for n, t in fields.items() if re.search(r"constraint|bound", n, re.I)}
+    ok = any(t not in ("()",) for t in carriers.values())
+    run.ob("R03.10", "FnScheme|carries the declared trait bounds", ok, site(ENV, st["node"]["sp"]),
+           f"FnScheme fields: {fields}; bound-carrying fields: {carriers or 'none'}",
+           witness="trait Show {..} struct P {..} fn render[T: Show](v: T) -> string { Show::show(v) } fn main() { render(P { x: 1 }) } with no impl Show for P is accepted; "
+                   "the emitted Go calls the undefined _goml_trait_impl_Show_P_show")
+
+
+def r03_11(run, model):
+    run.rule("R03.11", "a sub-expression is type-checked once per visit of its parent: within one typer function the elements of one child "
+                       "list are not handed to infer_expr/check_expr by two loops that can both run (the second pass repeats constraints, "
+                       "diagnostics and recorded coercions, and nesting makes the work exponential)")
+    CHECK = "crates/compiler/src/typer/check.rs"
+    n = 0
+    for f in model.fns(CHECK):
+        if f.body is None:
+            continue
+        loops = []
+        for loop in S.find(f.body, "For"):
+            vars_ = set(S.pat_bindings(loop["pat"]))
+            visits = [c for c in S.walk_no_closures(loop["body"]) if c["k"] == "MethodCall" and c["method"] in ("infer_expr", "check_expr") and
+                      any(a["k"] == "Unary" and S.idents(a) & vars_ or (a["k"] == "Path" and a["segs"][0] in vars_) for a in c["args"])]
+            if not visits:
+                continue
+            coll = sorted(S.idents(loop["iter"]) - {"iter", "zip", "enumerate", "into_iter"})
+            loops.append((loop, coll[0] if coll else "?", visits))
+        if len(loops) < 2:
+            n += len(loops)
+            continue
+        par = S.Parents(f.body)
+        seen_pairs = {}
+        for i, (l1, c1, v1) in enumerate(loops):
+            n += 1
+            for l2, c2, v2 in loops[i + 1:]:
+                if c1 != c2 or S.span_contains(l1["sp"], l2["sp"]) or S.span_contains(l2["sp"], l1["sp"]):
+                    continue
+                # exclusive when they sit in different branches of one if / different arms of one match, or when the block holding
+                # the first loop returns before the second can be reached
+                excl = False
+                for a in par.ancestors(l1):
+                    if a["k"] == "Block" and not S.span_contains(a["sp"], l2["sp"]):
+                        later = [st for st in a["stmts"] if (st["sp"][0], st["sp"][1]) > (l1["sp"][2], l1["sp"][3])]
+                        if any(st["k"] == "ExprStmt" and st["expr"]["k"] == "Return" for st in later):
+                            excl = True
+                for a in par.ancestors(l1):
+                    if a["k"] == "If" and a.get("else") is not None:
+                        in_t1, in_e1 = S.span_contains(a["then"]["sp"], l1["sp"]), S.span_contains(a["else"]["sp"], l1["sp"])
+                        in_t2, in_e2 = S.span_contains(a["then"]["sp"], l2["sp"]), S.span_contains(a["else"]["sp"], l2["sp"])
+                        if (in_t1 and in_e2) or (in_e1 and in_t2):
+                            excl = True
+                    if a["k"] == "Match":
+                        a1 = [arm for arm in a["arms"] if S.span_contains(arm["sp"], l1["sp"])]
+                        a2 = [arm for arm in a["arms"] if S.span_contains(arm["sp"], l2["sp"])]
+                        if a1 and a2 and a1[0] is not a2[0]:
+                            excl = True
+                kind = f"{v1[0]['method']} loop then {v2[0]['method']} loop over `{c1}`"
+                seen_pairs[kind] = seen_pairs.get(kind, 0) + 1
+                run.ob("R03.11", f"{f.qual}|{kind} #{seen_pairs[kind]}", excl, site(CHECK, l2["sp"]),
+                       f"loops over `{c1}` at lines {l1['sp'][0]} and {l2['sp'][0]} " + ("are in exclusive branches" if excl else "can both run: every argument is inferred and then checked again"),
+                       witness="id(id(id(…id(1)…))) nested 22 deep takes 20 s and 1.8 GB (doubling per level); string_println(pr(7)) with pr(d: dyn Show) wraps 7 in dyn Show twice")
+    run.floor("typer loops that visit child expressions", n, 8)
+
+
 def strip_callee(c):
     return re.sub(r"<[^<>]*>", "", c).split("::")[-1]
 
@@ -396,6 +467,8 @@ def run(run, model):
     run.try_rule(r03_5, model)
     run.try_rule(r03_8, model)
     run.try_rule(r03_9, model)
+    run.try_rule(r03_10, model)
+    run.try_rule(r03_11, model)
     run.try_rule(c07.r07_4, model)
     run.try_rule(c07.r07_2, model)
     from rules import c08
